@@ -44,8 +44,8 @@ Idx == 1..N
 Bool == {TRUE, FALSE}
 
 DataOf(i) == IF N >= TagFrom THEN {i} ELSE Data
-Inputs == {i \in [valid : [Idx -> Bool], data : [Idx -> (Data \cup Idx)], ready : Bool] :
-              \A k \in Idx : i.data[k] \in DataOf(k)}
+DataVectors == IF N >= TagFrom THEN {[k \in Idx |-> k]} ELSE [Idx -> Data]
+Inputs == [valid : [Idx -> Bool], data : DataVectors, ready : Bool]
 
 ValidSet(i) == {k \in Idx : i.valid[k]}
 Lowest(S) == CHOOSE k \in S : \A j \in S : k <= j
